@@ -15,8 +15,8 @@ def run(ctx):
                 "SuccessProbability and Size for 1.5-6 s per configuration on the SAME values: three character recipes (class requirements, overlapping custom "
                 "sets), four wordlist recipes sharing one word list, the shared preset SFDigits1 (also called directly) and a constructed separator function "
                 "with a requirement; every data-race report is an event, every returned value is validated; non-trivial = a value returned by a concurrent call")
-    nob = ctx.tlapm("ApiProofs", timeout=300)
-    ctx.cover["tlapm"] = ("ApiProofs.tla: %d obligations proved - the call protocol's invariant is inductive for ANY number of goroutines, objects and "
+    nob = ctx.tlapm("ApiProofs")
+    ctx.cover["tlapm"] = "proofs not re-checked in this run (prover did not finish)" if not nob else ("ApiProofs.tla: %d obligations proved - the call protocol's invariant is inductive for ANY number of goroutines, objects and "
                           "calls: no conflicting access, shared derived fields never written, results a function of the fields at call time, a failed "
                           "call leaves nothing held" % nob)
     ctx.model_check("Api", "MC_Api.cfg", "every interleaving of 3 goroutines x 2 calls on 2 shared objects: NoConflictingAccess, SharedDerivedNeverWritten, "
